@@ -637,14 +637,14 @@ func (c *cmafIngester) sendMediaSegment(ctx context.Context, wg *sync.WaitGroup,
 	u := fmt.Sprintf("%s/%s", c.dest(), segPath)
 	c.log.Info("send media segment", "path", segPath, "segNr", segNr, "nowMS", nowMS, "url", u, "chunked", c.useChunked)
 
+	// The channels are not closed: the sending goroutine may still be about to use them when this function
+	// returns early. Whoever gives up (segment not generated, upload failed) calls src.abort() instead.
 	nrBytesCh := make(chan int)
-	defer close(nrBytesCh)
 	writeMoreCh := make(chan struct{})
-	defer close(writeMoreCh)
 	finishedSendCh := make(chan struct{})
-	defer close(finishedSendCh)
 
 	src := newCmafSource(nrBytesCh, writeMoreCh, c.log, u, contentType, c.user, c.passWord, c.useChunked)
+	defer src.abort()
 
 	// Create media segment based on number and send it to segPath
 	if c.useChunked {
@@ -673,9 +673,20 @@ func (c *cmafIngester) sendMediaSegment(ctx context.Context, wg *sync.WaitGroup,
 		}
 	}
 	if c.useChunked {
-		<-writeMoreCh   // Capture final message
-		nrBytesCh <- -1 // Signal that we are done to Read (that reads and pushes to remote)
-		<-finishedSendCh
+		select {
+		case <-writeMoreCh: // Capture final message
+		case <-src.abortCh:
+			return
+		}
+		select {
+		case nrBytesCh <- -1: // Signal that we are done to Read (that reads and pushes to remote)
+		case <-src.abortCh:
+			return
+		}
+		select {
+		case <-finishedSendCh:
+		case <-src.abortCh:
+		}
 	} else {
 		// Write should have written everything to a c.buffer
 		req, err := http.NewRequestWithContext(ctx, "PUT", u, src.buffer)
@@ -715,6 +726,15 @@ type cmafSource struct {
 	user        string
 	password    string
 	useChunked  bool
+	abortCh     chan struct{} // Closed when the writer or the sender gives up, to release the other side
+	abortOnce   sync.Once
+}
+
+var errUploadAborted = errors.New("upload aborted")
+
+// abort releases whoever waits for the other side of the chunked transfer. It can be called more than once.
+func (cs *cmafSource) abort() {
+	cs.abortOnce.Do(func() { close(cs.abortCh) })
 }
 
 func newCmafSource(nrBytesCh chan int, writeMoreCh chan struct{}, log *slog.Logger, url string, contentType, user, password string,
@@ -729,6 +749,7 @@ func newCmafSource(nrBytesCh chan int, writeMoreCh chan struct{}, log *slog.Logg
 		user:        user,
 		password:    password,
 		useChunked:  useChunked,
+		abortCh:     make(chan struct{}),
 	}
 	if useChunked {
 		cs.buf = make([]byte, 64*1024)
@@ -737,11 +758,16 @@ func newCmafSource(nrBytesCh chan int, writeMoreCh chan struct{}, log *slog.Logg
 }
 
 func (cs *cmafSource) startReadAndSendChunked(ctx context.Context, finishedCh chan struct{}) {
-	cs.writeMoreCh <- struct{}{} // Get the writer going
+	select {
+	case cs.writeMoreCh <- struct{}{}: // Get the writer going
+	case <-cs.abortCh: // Nothing will be written (the segment could not be generated)
+		return
+	}
 	cs.ctx = ctx
 	req, err := http.NewRequestWithContext(ctx, "PUT", cs.url, cs)
 	if err != nil {
 		cs.log.Error("creating request", "err", err)
+		cs.abort()
 		return
 	}
 	setReqHeaders(req, cs.contentType, cs.user, cs.password)
@@ -749,10 +775,13 @@ func (cs *cmafSource) startReadAndSendChunked(ctx context.Context, finishedCh ch
 	resp, err := http.DefaultClient.Do(req)
 	if err != nil {
 		cs.log.Error("creating request", "err", err)
+		cs.abort() // Release the writer: nobody reads what it writes any more
 		return
 	}
 	if resp.StatusCode >= 300 {
 		cs.log.Warn("Bad status code", "code", resp.StatusCode)
+		resp.Body.Close()
+		cs.abort()
 		return
 	}
 	_, err = io.ReadAll(resp.Body) // Normally no body, but ready to be sure that buffers are cleared
@@ -763,7 +792,10 @@ func (cs *cmafSource) startReadAndSendChunked(ctx context.Context, finishedCh ch
 		cs.log.Debug("Closing body", "url", cs.url)
 		resp.Body.Close()
 	}()
-	finishedCh <- struct{}{}
+	select {
+	case finishedCh <- struct{}{}:
+	case <-cs.abortCh:
+	}
 }
 
 func (cs *cmafSource) Header() http.Header {
@@ -801,19 +833,31 @@ func (cs *cmafSource) Write(b []byte) (int, error) {
 		}
 		return n, err
 	}
-	<-cs.writeMoreCh
+	select {
+	case <-cs.writeMoreCh:
+	case <-cs.abortCh:
+		return 0, errUploadAborted
+	}
 	if cs.offset != 0 || cs.bufLevel != 0 {
 		cs.log.Warn("bad write levels", "url", cs.url, "offset", cs.offset, "bufLevel", cs.bufLevel)
 	}
 	nrWritten := 0
 	for {
 		n := copy(cs.buf, b[nrWritten:])
-		cs.nrBytesCh <- n
+		select {
+		case cs.nrBytesCh <- n:
+		case <-cs.abortCh:
+			return nrWritten, errUploadAborted
+		}
 		nrWritten += n
 		if nrWritten == len(b) {
 			break
 		}
-		<-cs.writeMoreCh // Wait for OK from reader
+		select {
+		case <-cs.writeMoreCh: // Wait for OK from reader
+		case <-cs.abortCh:
+			return nrWritten, errUploadAborted
+		}
 	}
 	return len(b), nil
 }
@@ -830,7 +874,12 @@ func (cs *cmafSource) WriteHeader(status int) {
 // with io.EOF.
 func (cs *cmafSource) Read(p []byte) (int, error) {
 	if cs.offset >= cs.bufLevel {
-		nrAvailable := <-cs.nrBytesCh // wait for more bytes
+		var nrAvailable int
+		select {
+		case nrAvailable = <-cs.nrBytesCh: // wait for more bytes
+		case <-cs.abortCh:
+			return 0, errUploadAborted
+		}
 		cs.bufLevel = nrAvailable
 		if cs.bufLevel < 0 {
 			return 0, io.EOF
@@ -844,7 +893,11 @@ func (cs *cmafSource) Read(p []byte) (int, error) {
 	if cs.offset == cs.bufLevel {
 		cs.offset = 0
 		cs.bufLevel = 0
-		cs.writeMoreCh <- struct{}{}
+		select {
+		case cs.writeMoreCh <- struct{}{}:
+		case <-cs.abortCh:
+			return n, errUploadAborted
+		}
 	}
 	return n, nil
 }
